@@ -39,6 +39,21 @@ CLAIMED = {
          "len(buf) on success and 0,nil for an empty argument; NewWriter returns w itself for an empty indent. Not decided: chunk-independence of the "
          "rendered bytes (needs Join/SplitAfter content reasoning), Write's byte count against the ghost number of bytes the underlying writer took."),
    ref="8 (C20)"),
+ "C12": dict(
+   text=("Deductive proof on the real functions: Entry.ReadOnly equals the recursive spec ro taken literally from the statement (nearest explicit config "
+         "says false, or inside an rpc/action output) and terminates on acyclic parents; Entry.Namespace returns the nearest namespace stamp on the way "
+         "up, else the namespace of the module at the root (its owner for a submodule), else a fresh empty value; RootNode returns the top of the AST "
+         "parent chain. Assumed: AST parents are a function of the node and acyclic, entry parents are acyclic, TriState fields hold one of three values. "
+         "Not decided yet: InstantiatingModule, namespace stamping in merge/Augment, and the composition 'whose text placed it' over the whole pipeline."),
+   ref="8 (C12)"),
+ "C13": dict(
+   text=("Deductive proof: Module.Current is the greatest revision name (for every statement order), FullName = name[@current]; Modules.add accepts only "
+         "modules/submodules, rejects an occupied full name leaving both maps unchanged, otherwise files the module under its full name and lets the "
+         "bare name denote the greater full name; FindModule returns the exact revision when a revision-date is given and loaded, else the bare name, "
+         "from the right map; only *Module reports kind module/submodule (checked on all 47 Node implementations). Bounded (labelled): file selection "
+         "over all subsets of 12 candidate names, load-order independence over all permutations of small header sets. Known finding (open): a "
+         "revision-less module and a revisioned one of the same name are order-dependent. Not decided: include == inline."),
+   ref="8 (C13)"),
 }
 
 NOT_REACHED = {}
